@@ -55,12 +55,15 @@ func NumNarrow(sc Scope, resid []residual, min int) func(p *load.Program) *repor
 					if len(*cv.Referrers()) == 0 {
 						continue
 					}
+					name := p.FuncName(fn)
 					if env == nil {
 						env = newIntervalEnv(p, fn)
+						env.trusted = func(c *ssa.Convert) bool {
+							return matchResidual(resid, name, convWhat(c)) >= 0
+						}
 					}
 					env.notes = map[string]bool{}
-					what := sprintf("%s(%s) of %s", types.TypeString(cv.Type(), shortQual), types.TypeString(cv.X.Type(), shortQual), describeOperand(cv.X))
-					name := p.FuncName(fn)
+					what := convWhat(cv)
 					facts := env.ff.At(cv)
 					xr, _ := env.rangeOf(cv.X, facts, map[ssa.Value]bool{}, 0)
 					switch {
@@ -93,6 +96,27 @@ func NumNarrow(sc Scope, resid []residual, min int) func(p *load.Program) *repor
 }
 
 func shortQual(p *types.Package) string { return p.Name() }
+
+// convWhat names a conversion position-free: target(source) of operand.
+func convWhat(cv *ssa.Convert) string {
+	return sprintf("%s(%s) of %s", types.TypeString(cv.Type(), shortQual), types.TypeString(cv.X.Type(), shortQual), describeOperand(cv.X))
+}
+
+// Residual rows of NUM-NARROW: one named conversion, one reason each. A row
+// names the enclosing function and the conversion (target(source) of operand).
+var NarrowResiduals = []residual{
+	{"(*Decimal).Truncate", "int32(int64) of (conv<int64>(p.d^.scale)-", "scale minus the number of digits cut off: the number of digits is at least 1 (diff <= 0 returns earlier) so the result can only be lower than the old scale, and the lower side is checked (panic 'exponent out of range'); the interval engine loses the upper bound because precision+1 could in principle wrap for precision = MaxInt"},
+	{"NewSymbolToken", "int64(uint64) of p.symbolTable.FindByName(p.text)#0", "an ID found in a symbol table is at most that table's MaxID, a count of symbols held in memory plus declared import sizes that are read from int64 values"},
+	{"readImport", "int64(uint64) of result of MaxID", "MaxID of a catalog table: a count of symbols held in memory (or a max_id read from an int64)"},
+	{"appendTimestamp", "uint64(int) of p.utc.dateTime.Year()", "the year of an Ion timestamp is 1..9999 (the domain of C15; both readers reject anything else since the fix of the binary year range); a time.Time outside that range is outside every property"},
+	{"timestampLen", "uint64(int) of p.utc.dateTime.Year()", "same operand as in appendTimestamp: year 1..9999"},
+}
+
+// Residual rows of NUM-SHIFT.
+var ShiftResiduals = []residual{
+	{"(*bitstream).ReadInt", "phi i << k:8", "the loop runs over the bytes of a magnitude that the dominating case condition bounds (b.len < 8, or b.len == 8 with the top bit clear), so at most 63 bits are accumulated; the trip count is not tracked by the interval engine"},
+	{"(*bitstream).ReadSymbolID", "phi ret << k:8", "the loop runs over at most 8 bytes (b.len > 8 is refused before the bytes are read), which fill a uint64 exactly; the trip count is not tracked by the interval engine"},
+}
 
 func noteText(n map[string]bool) string {
 	if len(n) == 0 {
@@ -754,4 +778,197 @@ func NumNoFloat(p *load.Program) *report.RuleResult {
 		}
 	}
 	return r
+}
+
+// ---------------------------------------------------------------------------
+// NUM-ALLOC
+
+// AllocFiles: everything that runs on untrusted input.
+var AllocFiles = []string{"reader.go", "textreader.go", "tokenizer.go", "skipper.go", "bitstream.go", "binaryreader.go", "readlocalsymboltable.go", "symboltable.go", "symboltoken.go", "catalog.go", "unmarshal.go", "decimal.go", "timestamp.go", "textutils.go", "fields.go"}
+
+// ScopeAlloc is the input side of package ion.
+var ScopeAlloc = Scope{Name: "input side of package ion", Pkgs: []string{"ion"}, Files: AllocFiles}
+
+// allocBound is the largest allocation (in elements) accepted on the strength
+// of a number alone.
+var allocBound = bi(1 << 20)
+
+// derivedFromLen: v is len/cap of something already in memory, possibly plus
+// or minus constants.
+func derivedFromLen(v ssa.Value, depth int) bool {
+	if depth > 6 {
+		return false
+	}
+	switch x := v.(type) {
+	case *ssa.Call:
+		if b, ok := x.Call.Value.(*ssa.Builtin); ok && (b.Name() == "len" || b.Name() == "cap") {
+			return true
+		}
+		if f := x.Call.StaticCallee(); f != nil && f.Signature.Recv() != nil && (f.Name() == "Len" || f.Name() == "Cap" || f.Name() == "NumField" || f.Name() == "NumMethod") {
+			return true
+		}
+	case *ssa.BinOp:
+		_, xc := x.X.(*ssa.Const)
+		_, yc := x.Y.(*ssa.Const)
+		if (x.Op == token.ADD || x.Op == token.SUB) && (xc || yc) {
+			if xc {
+				return derivedFromLen(x.Y, depth+1)
+			}
+			return derivedFromLen(x.X, depth+1)
+		}
+		if (x.Op == token.QUO || x.Op == token.SHR) && yc {
+			return derivedFromLen(x.X, depth+1)
+		}
+		if x.Op == token.MUL && (xc || yc) {
+			// a small constant multiple of an existing length
+			k := x.X
+			o := x.Y
+			if yc {
+				k, o = x.Y, x.X
+			}
+			if kv, ok := ssau.ConstInt(k); ok && kv >= 0 && kv <= 4 {
+				return derivedFromLen(o, depth+1)
+			}
+			return false
+		}
+		if x.Op == token.ADD {
+			return derivedFromLen(x.X, depth+1) && derivedFromLen(x.Y, depth+1)
+		}
+	case *ssa.Convert:
+		return derivedFromLen(x.X, depth+1)
+	case *ssa.Phi:
+		for _, e := range x.Edges {
+			if _, c := e.(*ssa.Const); c {
+				continue
+			}
+			if !derivedFromLen(e, depth+1) {
+				return false
+			}
+		}
+		return true
+	}
+	return false
+}
+
+// boundedByLen: v is derived from a length of data in memory, or the facts
+// bound it by one (v <= len(x)); for a phi, on every incoming edge.
+func boundedByLen(env *intervalEnv, v ssa.Value, facts ssau.FactSet, depth int) bool {
+	if depth > 4 {
+		return false
+	}
+	if derivedFromLen(v, 0) {
+		return true
+	}
+	vp := stripConv(ssau.Path(v))
+	for f := range facts {
+		if f.Kind != "le" && f.Kind != "lt" && f.Kind != "eq" {
+			continue
+		}
+		if stripConv(f.Path) != vp {
+			continue
+		}
+		a := stripConv(f.Arg)
+		if strings.HasPrefix(a, "len(") || strings.HasPrefix(a, "cap(") {
+			return true
+		}
+	}
+	switch x := v.(type) {
+	case *ssa.Convert:
+		return boundedByLen(env, x.X, facts, depth+1)
+	case *ssa.Phi:
+		for i, e := range x.Edges {
+			if _, c := e.(*ssa.Const); c {
+				continue
+			}
+			if !boundedByLen(env, e, env.ff.OnPhiEdge(x, i), depth+1) {
+				return false
+			}
+		}
+		return true
+	}
+	return false
+}
+
+// AllocResiduals: one named allocation, one reason each.
+var AllocResiduals = []residual{
+	{"(*Decimal).upscale", "big.Int.Exp exponent", "exact arithmetic on two caller-supplied decimals legitimately needs 10^(difference of exponents); from the input side upscale is reached only through checkToUpscale (trunc/round of a timestamp fraction), which refuses scales below -20 before calling it"},
+	{"(*sst).Symbols", "make([]T) sized by p.s^.maxID", "an sst's maxID exceeds its symbol count only after Adjust (an import declared larger than the catalog's table); no reader path calls Symbols() on such a table — readLocalSymbolTable calls it on the current local table or the system table, whose maxID equals its symbol count"},
+}
+
+// NumAlloc implements NUM-ALLOC.
+func NumAlloc(sc Scope, resid []residual, min int) func(p *load.Program) *report.RuleResult {
+	return func(p *load.Program) *report.RuleResult {
+		r := newResult("NUM-ALLOC", "every allocation in the "+sc.Name+" whose size is not a constant is sized either by the length of data already in memory or by a value whose interval is at most 2^20 elements: a length or count declared by the input never sizes an allocation before the bytes exist", min)
+		used := map[int]bool{}
+		for _, fn := range sortedFuncs(p) {
+			if !sc.has(p, fn) || len(fn.Blocks) == 0 {
+				continue
+			}
+			var env *intervalEnv
+			name := p.FuncName(fn)
+			check := func(in ssa.Instruction, size ssa.Value, kind string) {
+				if _, isConst := size.(*ssa.Const); isConst {
+					return
+				}
+				if env == nil {
+					env = newIntervalEnv(p, fn)
+				}
+				env.notes = map[string]bool{}
+				what := kind + " sized by " + describeOperand(size)
+				xr, ok := env.rangeOf(size, env.ff.At(in), map[ssa.Value]bool{}, 0)
+				switch {
+				case boundedByLen(env, size, env.ff.At(in), 0):
+					r.OK(name, instrPos(p, in), what, "sized by (or bounded by a comparison with) the length of data already in memory")
+				case ok && xr.hi.Cmp(allocBound) <= 0:
+					r.OK(name, instrPos(p, in), what, "size interval "+xr.String()+" ("+noteText(env.notes)+")")
+				default:
+					if i := matchResidual(resid, name, what); i >= 0 {
+						used[i] = true
+						r.Add(report.Obligation{Func: name, Pos: instrPos(p, in), What: what, Status: report.Discharged, By: "residual table: " + resid[i].reason})
+						return
+					}
+					r.Bad(name, instrPos(p, in), what, sprintf("the size interval %s is not bounded and is not the length of data already in memory: a declared length or count can request an arbitrarily large allocation (out of memory is fatal, not an error)", xr))
+				}
+			}
+			for _, b := range fn.Blocks {
+				for _, in := range b.Instrs {
+					switch x := in.(type) {
+					case *ssa.MakeSlice:
+						check(x, x.Len, "make([]T)")
+						if x.Cap != x.Len {
+							check(x, x.Cap, "make([]T) capacity")
+						}
+					case *ssa.MakeMap:
+						if x.Reserve != nil {
+							check(x, x.Reserve, "make(map)")
+						}
+					case *ssa.Call:
+						f := x.Call.StaticCallee()
+						if f == nil || f.Pkg == nil {
+							continue
+						}
+						switch {
+						case f.Pkg.Pkg.Path() == "reflect" && (f.Name() == "MakeSlice" || f.Name() == "MakeMapWithSize"):
+							for _, a := range x.Call.Args[1:] {
+								check(x, a, "reflect."+f.Name())
+							}
+						case f.Name() == "Grow" && f.Signature.Recv() != nil:
+							check(x, x.Call.Args[len(x.Call.Args)-1], ssau.TypeName(f.Signature.Recv().Type())+".Grow")
+						case f.Pkg.Pkg.Path() == "math/big" && f.Name() == "Exp":
+							// 10^n with an input-controlled n allocates n*log2(10) bits
+							if len(x.Call.Args) >= 3 {
+								if c2, ok := x.Call.Args[2].(*ssa.Call); ok && c2.Call.StaticCallee() != nil && c2.Call.StaticCallee().Name() == "NewInt" {
+									check(x, c2.Call.Args[0], "big.Int.Exp exponent")
+								}
+							}
+						}
+					}
+				}
+			}
+		}
+		for i, rs := range resid {
+			r.Suppressions = append(r.Suppressions, report.Suppression{Rule: "NUM-ALLOC", Symbol: rs.fn + " " + rs.conv, Reason: rs.reason, Used: used[i]})
+		}
+		return r
+	}
 }
